@@ -199,6 +199,16 @@ def check_C15(run):
     many = [e["fen"] for e in P["pool"] if e["cls"] in ("many", "extreme")]
     for f in rng.sample(many, min(len(many), 12 if th else 4)):
         corpus.append(["position fen " + f, "go depth 1", "go nodes 50", "isready"])
+    # a short search on positions of every special provenance class (pins on several rays at once, checks, en passant, promotions next
+    # to castling rooks, Chess960 castling, sparse endings): a wrong move generated anywhere below shows as a panic or a lost king
+    special = {}
+    for e in P["pool"]:
+        if e["cls"] in ("multipin", "pin", "check", "ep", "promo-castle", "promo", "kxr", "endgame", "castle960") and std_geometry(e["fen"]):
+            special.setdefault(e["cls"], []).append(e["fen"])
+    for cls in sorted(special):
+        k = (60 if th else 25) if cls == "multipin" else (10 if th else 3)
+        for f in rng.sample(special[cls], min(len(special[cls]), k)):
+            corpus.append(["position fen " + f, "go depth 3", "isready", "go perft 2"])
     scripts = [(c, any("time" in l for l in c)) for c in corpus] + scripts
     model = vlib.run_model_par(["session\twrapping\t" + "|".join(l.replace("|", " ") for l in s) for s, _ in scripts])
     modelc = vlib.run_model_par(["session\tchecked\t" + "|".join(l.replace("|", " ") for l in s) for s, _ in scripts])
@@ -349,6 +359,13 @@ def check_C16(run):
     # deep searches that fill the whole table (every slot region, the last ones too), then ucinewgame and the same or a nearby search
     deep = [("position startpos", 6), ("position fen r3k2r/p1ppqpb1/bn2pnp1/3PN3/1p2P3/2N2Q1p/PPPBBPPP/R3K2R w KQkq - 0 1", 5),
             ("position startpos moves e2e4 e7e5 g1f3", 6), ("position fen r1bqkbnr/pppp1ppp/2n5/4p3/2B1P3/5N2/PPPP1PPP/RNBQK2R b KQkq - 3 3", 6)]
+    # small first search (only a few table slots used, none of them among the first thousand), then ucinewgame and a larger one
+    small = [("position startpos", 3, 5), ("position startpos moves e2e4 e7e5", 2, 4), ("position fen 8/8/4k3/8/8/3K4/R7/8 w - - 0 1", 2, 5)]
+    for posl, d1, d2 in small:
+        reports = [f"go depth {d2}", "print", "history"]
+        full = ["isready", posl, f"go depth {d1}", "isready", "ucinewgame", posl] + reports + ["quit"]
+        fresh = ["isready", "isready", posl] + reports + ["quit"]
+        jobs.append((full, fresh, True, True))
     for k, (posl, d) in enumerate(deep if th else deep[:3]):
         hashv = (None, 1, 3, 2)[k]
         opts = [f"setoption name Hash value {hashv}"] if hashv else []
@@ -362,7 +379,7 @@ def check_C16(run):
         return run_engine(rel, s, timeout=120)
     r1 = vlib.par_map(one, [j[0] for j in jobs])
     r2 = vlib.par_map(one, [j[1] for j in jobs])
-    ndeep = len(deep if th else deep[:3])
+    ndeep = len(deep if th else deep[:3]) + len(small)
     m1 = vlib.run_model_par(["session\twrapping\t" + "|".join(j[0]) for j in jobs[:-ndeep]]) + ["SKIP (deep search: implementation vs fresh process only)"] * ndeep
     nv = 0
     for (full, fresh, newgame, searched), a, b, m in zip(jobs, r1, r2, m1):
